@@ -10,7 +10,7 @@
    NOT proved: that every interleaving of deliveries and timer steps reaches the converged state (needs fairness and
    the timer gating); explored by the check on 2-3 real nodes under seeded schedulers. *)
 From Coq Require Import NArith List Sorted.
-From SkV Require Import Sync SyncProofs NodeModel NodeProofs.
+From SkV Require Import Sync SyncProofs SyncRoundProofs NodeModel NodeProofs.
 Import ListNotations.
 Open Scope N_scope.
 
@@ -58,6 +58,22 @@ Theorem C10_relay_at_most_once : forall skip tx_valid_at tx_conflict,
   Quiescent s /\ PoolInv tx_valid_at tx_conflict s /\ NoDup (block_ids s) /\ incl (block_ids s0) (block_ids s).
 Proof. exact relay_at_most_once. Qed.
 
+(* initial block download in the LINEAR case (the requester's chain is a prefix of the server's active chain): each round
+   appends the next min(batch, remaining) ids, so after n rounds the requester holds min(|main|, |rc| + n*batch) blocks
+   and reaches the server's chain; the forked case is not covered by a theorem (explored by the check) *)
+Theorem C10_ibd_rounds_converge : forall batch main height_of, main <> [] ->
+  (forall i h, nth_error main (N.to_nat h) = Some i -> height_of i = Some h) -> 0 < batch ->
+  forall rc, rc <> [] -> prefix_of main rc -> forall n,
+  prefix_of main (rounds batch main height_of n rc) /\
+  length (rounds batch main height_of n rc) = Nat.min (length main) (length rc + n * N.to_nat batch).
+Proof. intros batch main height_of H1 H2 H3. exact (rounds_converge batch main height_of H1 H2 H3). Qed.
+Theorem C10_ibd_terminates : forall batch main height_of, main <> [] ->
+  (forall i h, nth_error main (N.to_nat h) = Some i -> height_of i = Some h) -> 0 < batch ->
+  forall rc, rc <> [] -> prefix_of main rc -> exists n, rounds batch main height_of n rc = main.
+Proof. intros batch main height_of H1 H2 H3. exact (ibd_terminates batch main height_of H1 H2 H3). Qed.
+
+Print Assumptions C10_ibd_rounds_converge.
+Print Assumptions C10_ibd_terminates.
 Print Assumptions C10_locator_exact.
 Print Assumptions C10_locator_sorted.
 Print Assumptions C10_serve_consecutive.
